@@ -69,17 +69,22 @@ def compute (d : Dir) : Dir :=
   | .links => { d with est := ((d.links.map legacyLinkSize).sum : Nat), total := d.links.length }
   | .disabled => { d with est := 0, total := d.links.length }
 
+/-- what one link contributes in the mode in force (`name` is passed separately, as in Go) -/
+def linkCost (m : EstMode) (name : Bytes) (l : C11.Link) : Int :=
+  match m with
+  | .block => (linkSerializedSize name l.cid l.size : Nat)
+  | .links => (name.length + l.cid.length : Nat)
+  | .disabled => 0
+
+/-- tail of `updateEstimatedSize`: store the new value; `if d.estimatedSize < 0 { recompute }` -/
+def withEst (d : Dir) (e : Int) : Dir :=
+  if e < 0 then compute { d with est := e } else { d with est := e }
+
 /-- `updateEstimatedSize(name, oldLink, newLink)` -/
 def updateEst (d : Dir) (name : Bytes) (old new : Option C11.Link) : Dir :=
-  let sz : C11.Link → Int := fun l =>
-    match d.estMode with
-    | .block => linkSerializedSize name l.cid l.size
-    | .links => (name.length + l.cid.length : Nat)
-    | .disabled => 0
-  let e1 := match old with | some l => d.est - sz l | none => d.est
-  let e2 := match new with | some l => e1 + sz l | none => e1
-  let d' := { d with est := e2 }
-  if e2 < 0 then compute d' else d'
+  let e1 := match old with | some l => d.est - linkCost d.estMode name l | none => d.est
+  let e2 := match new with | some l => e1 + linkCost d.estMode name l | none => e1
+  withEst d e2
 
 /-- `RemoveChild`: (dir, found) -/
 def removeChild (d : Dir) (name : Bytes) : Dir × Bool :=
